@@ -868,6 +868,77 @@ func runC04(r *rt.Runner) {
 			}
 		})
 	}
+	// literal objects at the top level of a program (no enclosing braces), the
+	// last one ending with the very last byte of the input or followed by one
+	// separator: the operand stack then holds exactly these objects
+	{
+		type lit struct {
+			text string
+			objs []tokObj
+		}
+		tails := []lit{
+			{"/", []tokObj{{kind: "name", s: []byte("")}}},
+			{"/a", []tokObj{{kind: "name", s: []byte("a")}}},
+			{"/a/", []tokObj{{kind: "name", s: []byte("a")}, {kind: "name", s: []byte("")}}},
+			{"(s)/", []tokObj{{kind: "str", s: []byte("s")}, {kind: "name", s: []byte("")}}},
+			{"/\xe9", []tokObj{{kind: "name", s: []byte("\xe9")}}},
+			{"12", []tokObj{{kind: "int", i: 12}}},
+			{"-7", []tokObj{{kind: "int", i: -7}}},
+			{"16#ff", []tokObj{{kind: "int", i: 255}}},
+			{"-.5", []tokObj{{kind: "real", f: -0.5}}},
+			{"1e3", []tokObj{{kind: "real", f: 1000}}},
+			{"(s)", []tokObj{{kind: "str", s: []byte("s")}}},
+			{"()", []tokObj{{kind: "str", s: []byte("")}}},
+			{"(a(b)c)", []tokObj{{kind: "str", s: []byte("a(b)c")}}},
+			{"<41>", []tokObj{{kind: "str", s: []byte("A")}}},
+			{"<>", []tokObj{{kind: "str", s: []byte("")}}},
+			{"<4>", []tokObj{{kind: "str", s: []byte("@")}}},
+			{"<~z~>", []tokObj{{kind: "str", s: []byte{0, 0, 0, 0}}}},
+			{"<~~>", []tokObj{{kind: "str", s: []byte("")}}},
+		}
+		heads := []lit{
+			{"", nil},
+			{"1 ", []tokObj{{kind: "int", i: 1}}},
+			{"(x)", []tokObj{{kind: "str", s: []byte("x")}}},
+			{"/q ", []tokObj{{kind: "name", s: []byte("q")}}},
+			{"1 (s) ", []tokObj{{kind: "int", i: 1}, {kind: "str", s: []byte("s")}}},
+			{"%c\n", nil},
+			{"<41>\r\n", []tokObj{{kind: "str", s: []byte("A")}}},
+			{"/ ", []tokObj{{kind: "name", s: []byte("")}}},
+		}
+		seps := []string{"", " ", "\n", "\r", "\r\n", "\t", "\f", "\x00", "%c", "%c\n", " % c\r"}
+		r.Case("top-level-at-end-of-input", func(c *rt.C) {
+			for _, h := range heads {
+				for _, t := range tails {
+					for _, sp := range seps {
+						text := h.text + t.text + sp
+						want := append(append([]tokObj(nil), h.objs...), t.objs...)
+						c.Eval()
+						c.Count("top-level literal sequences")
+						intp := postscript.NewInterpreter()
+						intp.MaxOps = 1000
+						err := intp.ExecuteString(text)
+						fp := fmt.Sprintf("top-level|%q", t.text+sp)
+						if err != nil {
+							c.Violation(fp+"|error", fmt.Sprintf("Execute(%q) failed: %v", text, err), "")
+							continue
+						}
+						if len(intp.Stack) != len(want) {
+							c.Violation(fp+"|count", fmt.Sprintf("Execute(%q) leaves %d objects on the stack (%s), the input holds %d", text, len(intp.Stack), libStackShow(intp), len(want)), "")
+							continue
+						}
+						for i := range want {
+							if d := cmpTok(intp.Stack[i], want[i], fmt.Sprintf("object %d", i)); d != "" {
+								c.Violation(fp+"|tokens", fmt.Sprintf("Execute(%q): %s", text, d), "")
+								break
+							}
+						}
+					}
+				}
+			}
+			c.Nontrivial([]byte("top-level"), nil)
+		})
+	}
 	// generated sequences
 	nGen := r.N(500000, 5000000)
 	for k := 0; k < nGen; k++ {
